@@ -123,22 +123,10 @@ func New(
 	s.t.ControlCharacterCallback = func(key rune) {
 		switch key {
 		case 0x0F: /* ^O, silence output for a bit. */
-			s.wL.Lock()
-			defer s.wL.Unlock()
-			/* Don't double-pause. */
-			if s.silenced {
-				go s.Logf(ColorRed, false, "Already muted")
-				return
-			}
-			/* Pause output for a bit. */
-			s.silenced = true
-			s.resetSilenceTimer(true)
-			go s.Logf(
-				ColorRed,
-				false,
-				"Muting until we get %s of calm",
-				PlainWritePause,
-			)
+			/* The terminal calls us with its lock held and
+			writers take s.wL before the terminal's lock, so we
+			mustn't wait for s.wL here. */
+			go s.mute()
 		case 0x09: /* ^I, paste from file. */
 			go s.insert()
 		case 0x0a: /* ^J, like ^I but just locally. */
@@ -293,6 +281,26 @@ func (s *Shell) handleOutput(ctx context.Context) error {
 			return fmt.Errorf("writing to terminal: %w", err)
 		}
 	}
+}
+
+// mute silences plain output for a bit, as on Ctrl+O.
+func (s *Shell) mute() {
+	s.wL.Lock()
+	defer s.wL.Unlock()
+	/* Don't double-pause. */
+	if s.silenced {
+		go s.Logf(ColorRed, false, "Already muted")
+		return
+	}
+	/* Pause output for a bit. */
+	s.silenced = true
+	s.resetSilenceTimer(true)
+	go s.Logf(
+		ColorRed,
+		false,
+		"Muting until we get %s of calm",
+		PlainWritePause,
+	)
 }
 
 // writePlain writes a plain message to the terminal, assuming the terminal's
